@@ -89,6 +89,8 @@ def op_txt(op):
         return "%s %s" % (n, p)
     if n == "ITER":
         return "KEYS %s" % p
+    if n == "UPD" and op.get("shape") == "proxy" and "m" in op:
+        return "UPDP %s %s %s" % (p, enc(op["m"]), enc(op.get("kw", {})))
     if n == "UPD":
         return "UPD %s %s %s" % (p, enc(op["m"]) if "m" in op else ABSENT, enc(op.get("kw", {})))
     raise ValueError("unknown op %r" % (op,))
